@@ -175,10 +175,16 @@ class Engine:
         return True
 
     def op_prune(self, ri, strict):
-        cands = [r for r in self.roots if r.name in R.node_mappings and self.registered(r)]
+        # any registered tree, also one whose root is itself an unknown element (it is then the pruned subtree), and
+        # - every third time - an inner node of a tree as the starting point
+        cands = [r for r in self.roots if self.registered(r)]
         if not cands:
             return False
         t = cands[ri % len(cands)]
+        if ri % 3 == 2:
+            inner = [x for x in all_nodes(t)[1:] if x.name != "metadata"]
+            if inner:
+                t = inner[(ri // 3) % len(inner)]
         ok, got = self.call("prune", lambda: validate.prune(t, strict))
         if not ok:
             return True
@@ -187,6 +193,8 @@ class Engine:
         for x, _ in got:
             for d in all_nodes(x):
                 self.model.pop(d.id, None)
+            if x in self.roots:
+                self.roots.remove(x)
         return True
 
     def op_expand(self, ri):
@@ -333,7 +341,7 @@ class RegistryMachine(RuleBasedStateMachine):
     @rule(data=st.data())
     def build_prunable(self, data):
         from props import c15
-        sp, _ = data.draw(c15.cases())
+        sp = data.draw(c15.cases())[0]
         self.do(["build", sp])
 
     @rule(data=st.data())
